@@ -131,6 +131,8 @@ class Integrator(object):
             self.acceleration_evals = a_evals
         else:
             self.acceleration_evals = [a_evals]
+        # Whether dt_adapt is used depends on the arrays: decide again.
+        self._has_dt_adapt = None
 
     def set_fixed_h(self, fixed_h):
         # compute h_minimum once for constant smoothing lengths
